@@ -119,6 +119,10 @@ def scenarios(seed, tier):
             if var:
                 s['shortcut'] = {'grid': var[0], 'use': r3.choice(['set', 'setup', 'setup', 'optimize', 'optimize', 'split', 'json'])}
         yield 'gen%d' % i, s
+    # the same kind of portfolio through the other doors of the package (io.optimize with the data in several containers,
+    # run_from_json, set_param): comp/entry.py
+    from ..comp import entry as EN
+    yield from EN.stream(seed, n // 8, ('io_split',), tmax=10 if tier == 'quick' else 16)
 
 
 def interval_of(scn, tg):
@@ -140,6 +144,9 @@ def key_rows(m):
 
 
 def run_case(scn, drv):
+    if scn.get('_stream') == 'entry':
+        from ..comp import entry as EN
+        return EN.run_stream_case(scn, ('entry_point', 'nodal_balance', 'value_accounting'))
     r = {'evaluated': 1, 'nontrivial': False, 'features': [], 'disagreements': [], 'violations': []}
     feats = r['features']
     feats.append('stream:' + scn['stream'])
